@@ -71,6 +71,17 @@ func (ex *Exec) callResolved(st *State, frID int, instr ssa.Instruction, cc *ssa
 				}
 			}
 		}
+		// a value of a named function type may have a contract attached to the type (pkg.TypeName):
+		// every function passed as such a value is obliged to satisfy it
+		if n := namedOf(cc.Value.Type()); n != nil {
+			if _, isSig := n.Underlying().(*types.Signature); isSig {
+				if fc := ex.ctx.specs.Funcs[typeKey(n)]; fc != nil {
+					ex.externs[typeKey(n)+" (contract on a named function type)"] = true
+					ex.applyContract(st, frID, instr, fc, cc.Signature(), args, k)
+					return
+				}
+			}
+		}
 		// unknown function value: assumed pure with an unconstrained result
 		ex.assumed["call through unknown function value in "+ex.fn.Name()+" assumed pure"] = true
 		k(st, ex.freshResults(st, cc.Signature().Results(), "dyncall"))
